@@ -166,9 +166,6 @@ func containerDocs() []docSpec {
 	add("array-mixed", []string{"iface", "iface-number", "slice-iface", "raw"}, `[true,null,"a",1.5,{"k":[]}]`, `[ "x`+itemText("u-pair")+`" , -1e-2 , false ]`, `[[[[]]]]`, `[{},{"a":{}}]`)
 	add("array-string", []string{"iface", "slice-string", "slice-iface"}, `["a","b"]`, `["`+itemText("esc-n")+`","`+itemText("u-latin")+`",""]`, `[ "`+itemText("u-high")+itemText("u-low")+`" ]`)
 	add("object", []string{"iface", "map-iface", "raw", "struct"}, `{}`, `{ }`, `{"a":1}`, `{"a":1,"b":"x"}`, `{ "a" : 1 , "b" : "x" }`, `{"b":"y","a":2,"c":[1,{"d":null}]}`, `{"a":1,"a":2}`, `{"unknown":{"deep":[1,2,{"x":"`+itemText("esc-q")+`"}]},"a":5}`, `{"A":3,"B":"up"}`)
-	// member names spelled with \u escapes: the key decoder of struct destinations has its own refill logic (valid documents only:
-	// their single-byte mutations would repeat those of the plain spellings above, so part I skips this tag)
-	add("object-ukey", []string{"iface", "map-iface", "raw", "struct"}, `{"\u0061":5,"b":"x"}`, `{"a":1,"\u0062":"y"}`, `{"\ud83d\ude00":1,"\u0061":2}`)
 	add("object-string", []string{"iface", "map-string", "map-iface"}, `{"k":"v"}`, `{"`+itemText("u-latin")+`":"`+itemText("u-pair")+`"}`, `{"k`+itemText("esc-n")+`":"","":"e"}`, `{"`+itemText("mb3")+`":"`+itemText("mb4")+`"}`)
 	return out
 }
@@ -627,7 +624,7 @@ func Run(job *wk.Job, w *wk.Worker) error {
 	}
 	muts := []byte{'x', '"', '\\', ',', ']', '}', 0x00, '0'}
 	for _, ds := range docs {
-		if len(ds.doc) > 24 && p.Level < 2 || ds.tag == "object-ukey" {
+		if len(ds.doc) > 24 && p.Level < 2 {
 			continue
 		}
 		for i := 0; i < len(ds.doc); i++ {
